@@ -31,8 +31,14 @@ func vBaseType(kind int) *BaseType {
 	case 1:
 		b.Type = TypeReal
 		b.minReal, b.maxReal = vOptFloat(), vOptFloat()
+		if rt.Choose(2) == 1 {
+			b.Enum = []interface{}{0.5, 1.5}
+		}
 	case 2:
 		b.Type = TypeBoolean
+		if rt.Choose(2) == 1 {
+			b.Enum = []interface{}{true}
+		}
 	case 3:
 		b.Type = TypeString
 		b.minLength, b.maxLength = vOptInt(), vOptInt()
